@@ -93,6 +93,8 @@ impl Registry {
             match self.ops.get(name) {
                 Some(k) => *k,
                 None if name == "addone" => 1,
+                // the legacy built-in push without flags moves nothing
+                None if name == "push" => 0,
                 None => return None,
             }
         } else if let Some(body) = self.res.get(name) {
@@ -274,6 +276,14 @@ fn alphabet(full: bool) -> Vec<Act> {
     }
     for d in ["addone", "foo", "m:a", "m:a | addone", "addone inv | foo", "nosuch", "no:such", "f:x", "f:y"] {
         a.push(Act::Op(0, d));
+    }
+    // a colon in an ARGUMENT does not make the step a macro invocation: the name decides
+    a.push(Act::Op(0, "foo label=a:b"));
+    if full {
+        a.push(Act::Op(0, "addone label=epsg:4326 | foo"));
+        // a user operator carrying the name of a built-in the pipeline executes itself
+        a.push(Act::RegOp(0, "push", 10));
+        a.push(Act::Op(0, "push | addone"));
     }
     // the second context
     a.push(Act::RegOp(1, "addone", 20));
